@@ -124,31 +124,70 @@ func c08tunnelSites(c *Ctx, reg []*ssa.Function) []ssa.Instruction {
 }
 
 // runC08X3: the X-Forwarded-For write of the websocket edge and the choice of the tunnel depend on the same client header.
-func runC08X3(c *Ctx, serve *ssa.Function, reg []*ssa.Function, xffDeps map[string]bool) {
-	var tunDeps map[string]bool
-	for _, i := range c08tunnelSites(c, reg) {
-		if tunDeps == nil {
-			tunDeps = map[string]bool{}
-		}
-		for h := range c08factDeps(i.Block(), nil) {
-			tunDeps[h] = true
+//
+// Each of the two decisions has a set of branch conditions it is control dependent on (through the call chain). A
+// branch that EVERY X-Forwarded-For write and EVERY tunnel site depends on with the same outcome (the auth gate, the
+// route lookup, an "is this a CORS preflight" test in front of both) cannot make the two disagree, whatever request
+// headers it reads: it is left out. What remains on either side may read the Upgrade header only (and, for the write,
+// the prior X-Forwarded-For value), and at least one side of each decision must read it at all.
+func runC08X3(c *Ctx, serve *ssa.Function, reg []*ssa.Function, writes []*c08write) {
+	type branch struct {
+		cond ssa.Value
+		then bool
+	}
+	var xSites, tSites [][]c08ctl
+	for _, w := range writes {
+		if w.key == (c08key{"const", "X-Forwarded-For"}) && w.m != "Del" {
+			xSites = append(xSites, c08ctlAt(w.instr.Block(), w.ctx, 0))
 		}
 	}
-	if xffDeps == nil || tunDeps == nil {
+	for _, i := range c08tunnelSites(c, reg) {
+		tSites = append(tSites, c08ctlAt(i.Block(), nil, 0))
+	}
+	if len(xSites) == 0 || len(tSites) == 0 {
 		c.undecided("C08.X3", "proxy|websocket decision sites", "the X-Forwarded-For write or the websocket tunnel construction was not found")
 		return
 	}
+	// the branches shared by all sites of both kinds
+	count := map[branch]int{}
+	for _, site := range append(append([][]c08ctl{}, xSites...), tSites...) {
+		seen := map[branch]bool{}
+		for _, f := range site {
+			if b := (branch{f.cond, f.then}); !seen[b] {
+				seen[b] = true
+				count[b]++
+			}
+		}
+	}
+	nSites := len(xSites) + len(tSites)
+	depsOf := func(sites [][]c08ctl, own bool) map[string]bool {
+		out := map[string]bool{}
+		for _, site := range sites {
+			for _, f := range site {
+				if own && count[branch{f.cond, f.then}] == nSites {
+					continue
+				}
+				for k := range c08deps(f.cond, f.ctx) {
+					out[k] = true
+				}
+			}
+		}
+		return out
+	}
+	xAll, tAll := depsOf(xSites, false), depsOf(tSites, false)
+	x, t := depsOf(xSites, true), depsOf(tSites, true)
 	// the XFF guard legitimately also reads the prior X-Forwarded-For value
-	x, t := map[string]bool{}, map[string]bool{}
-	for k := range xffDeps {
-		x[k] = true
-	}
-	for k := range tunDeps {
-		t[k] = true
-	}
 	delete(x, "X-Forwarded-For")
 	delete(t, "X-Forwarded-For")
+	only := func(m map[string]bool) bool {
+		for k := range m {
+			if k != "Upgrade" {
+				return false
+			}
+		}
+		return true
+	}
 	c.check("C08.X3", "proxy|websocket X-Forwarded-For decided by the same header as the tunnel", serve.Pos(),
-		depsStr(x) == depsStr(t) && x["Upgrade"] && len(x) == 1,
-		"ServeHTTP chooses the websocket tunnel (which adds no X-Forwarded-For of its own) from request headers ["+depsStr(t)+"], but the headers code decides whether to append the peer address from ["+depsStr(x)+"]: when the two can disagree (a client or earlier hop sending X-Forwarded-Proto / Forwarded), a tunnelled request reaches the upstream without the real peer in X-Forwarded-For")
+		depsStr(x) == depsStr(t) && only(x) && xAll["Upgrade"] && tAll["Upgrade"],
+		"ServeHTTP chooses the websocket tunnel (which adds no X-Forwarded-For of its own) from request headers ["+depsStr(t)+"], but the headers code decides whether to append the peer address from ["+depsStr(x)+"] (branches that both decisions pass through with the same outcome are not counted): when the two can disagree (a client or earlier hop sending X-Forwarded-Proto / Forwarded), a tunnelled request reaches the upstream without the real peer in X-Forwarded-For")
 }
